@@ -44,7 +44,7 @@ func (rt *Transfer) deleteFiles(fileList []*File) error {
 			if findInFileList(fileList, path) {
 				return nil
 			}
-			if rt.Protect != nil && rt.Protect(path) {
+			if rt.Protect != nil && rt.Protect(path, info.IsDir()) {
 				// excluded entries are not part of the transfer, deletion included
 				if info.IsDir() {
 					return fs.SkipDir
